@@ -66,6 +66,8 @@ type csmTr struct {
 	order   []string
 	texts   map[string]string
 	state   map[string]int
+	// loc: time.Time values carry a location (quartz/cron.go): they are GoTimeLoc.gtime records, not day numbers
+	loc bool
 }
 
 func (t *csmTr) gtype(f *file, e ast.Expr) string {
@@ -88,11 +90,21 @@ func (t *csmTr) gtype(f *file, e ast.Expr) string {
 		if x.Len == nil && t.gtype(f, x.Elt) == "Z" {
 			return "list Z"
 		}
+		if x.Len == nil && t.loc && t.gtype(f, x.Elt) == "gtime" {
+			return "list gtime"
+		}
 	case *ast.SelectorExpr:
 		switch callName(x) {
 		case "time.Time":
+			if t.loc {
+				return "gtime"
+			}
 			return "gotime"
-		case "time.Month", "time.Weekday":
+		case "time.Location":
+			if t.loc {
+				return "zone"
+			}
+		case "time.Month", "time.Weekday", "time.Duration":
 			return "Z"
 		}
 	}
@@ -291,6 +303,7 @@ func (t *csmTr) require(gf *gfunc) {
 		die("internal/csm: %s is recursive; recursive node-level functions are not translatable", gf.goName)
 	}
 	t.state[gf.goName] = 1
+	renameReserved(gf.decl)
 	o := &out{}
 	fc := &fnCtx{t: t, fn: gf, env: map[string]string{}}
 	var ps []string
@@ -550,19 +563,26 @@ func (c *fnCtx) stmts(list []ast.Stmt, k func() string) string {
 		default:
 			die("%s: unsupported assignment operator at %s", c.fn.file.path, c.pos(x))
 		}
-		if len(x.Lhs) == 2 && len(x.Rhs) == 1 {
-			a, aok := x.Lhs[0].(*ast.Ident)
-			b, bok := x.Lhs[1].(*ast.Ident)
-			if !aok || !bok {
-				die("%s: unsupported tuple assignment at %s", c.fn.file.path, c.pos(x))
+		if len(x.Lhs) >= 2 && len(x.Rhs) == 1 {
+			var names []string
+			for _, l := range x.Lhs {
+				id, ok := l.(*ast.Ident)
+				if !ok {
+					die("%s: unsupported tuple assignment at %s", c.fn.file.path, c.pos(x))
+				}
+				names = append(names, id.Name)
 			}
 			tys := c.resultTypes(x.Rhs[0])
-			if len(tys) != 2 {
-				die("%s: two-valued call expected at %s", c.fn.file.path, c.pos(x))
+			if len(tys) != len(names) {
+				die("%s: %d-valued call expected at %s", c.fn.file.path, len(names), c.pos(x))
 			}
 			return c.expr(x.Rhs[0], func(v string) string {
-				c.env[a.Name], c.env[b.Name] = tys[0], tys[1]
-				return fmt.Sprintf("let '(%s, %s) := %s in\n  %s", a.Name, b.Name, v, next())
+				for i, n := range names {
+					if n != "_" {
+						c.env[n] = tys[i]
+					}
+				}
+				return fmt.Sprintf("let '(%s) := %s in\n  %s", strings.Join(names, ", "), v, next())
 			})
 		}
 		if len(x.Lhs) != len(x.Rhs) {
@@ -658,11 +678,12 @@ func (c *fnCtx) stmts(list []ast.Stmt, k func() string) string {
 		if x.Tok != token.DEFINE || x.Key == nil || !isIdent(x.Key) || x.Key.(*ast.Ident).Name != "_" || x.Value == nil || !isIdent(x.Value) {
 			die("%s: only `for _, v := range xs` is supported (%s)", c.fn.file.path, c.pos(x))
 		}
-		if c.typeOf(x.X) != "list Z" || c.hasEffects(x.X) {
+		lty := c.typeOf(x.X)
+		if !strings.HasPrefix(lty, "list ") || c.hasEffects(x.X) {
 			die("%s: range over a non-slice or effectful expression at %s", c.fn.file.path, c.pos(x))
 		}
 		return c.expr(x.X, func(xs string) string {
-			return c.loopOver(xs, x.Value.(*ast.Ident).Name, x.Body.List, next)
+			return c.loopOverT(xs, strings.TrimPrefix(lty, "list "), x.Value.(*ast.Ident).Name, x.Body.List, next)
 		})
 	case *ast.ForStmt:
 		// for i := A; i <= B; i++  with constant A, B and a body that does not assign i
@@ -702,6 +723,22 @@ func (c *fnCtx) stmts(list []ast.Stmt, k func() string) string {
 			vals = append(vals, v)
 		}
 		return c.loopOver(coqZList(vals), iv, x.Body.List, next)
+	case *ast.DeclStmt:
+		gd, ok := x.Decl.(*ast.GenDecl)
+		if !ok || gd.Tok != token.VAR || len(gd.Specs) != 1 {
+			die("%s: unsupported declaration at %s", c.fn.file.path, c.pos(x))
+		}
+		vs := gd.Specs[0].(*ast.ValueSpec)
+		if len(vs.Names) != 1 || len(vs.Values) != 0 || vs.Type == nil {
+			die("%s: only `var x T` is supported (%s)", c.fn.file.path, c.pos(x))
+		}
+		ty := c.t.gtype(c.fn.file, vs.Type)
+		zero := map[string]string{"Z": "0", "bool": "false", "gtime": "time_zeroTime"}[ty]
+		if zero == "" {
+			die("%s: no zero value for %s at %s", c.fn.file.path, ty, c.pos(x))
+		}
+		c.env[vs.Names[0].Name] = ty
+		return fmt.Sprintf("let %s := %s in\n  %s", vs.Names[0].Name, zero, next())
 	case *ast.BranchStmt:
 		if c.loop == nil || x.Label != nil {
 			die("%s: branch statement outside a loop at %s", c.fn.file.path, c.pos(x))
@@ -727,6 +764,10 @@ func (c *fnCtx) copyEnv() map[string]string {
 
 // loopOver emits a structural fix over the list xs; the variables assigned in the body are carried.
 func (c *fnCtx) loopOver(xs, v string, body []ast.Stmt, after func() string) string {
+	return c.loopOverT(xs, "Z", v, body, after)
+}
+
+func (c *fnCtx) loopOverT(xs, elem, v string, body []ast.Stmt, after func() string) string {
 	carried := c.assigned(body)
 	name := c.fresh("loop")
 	lv := c.fresh("l")
@@ -746,7 +787,7 @@ func (c *fnCtx) loopOver(xs, v string, body []ast.Stmt, after func() string) str
 		c.env = sv
 		return s
 	}
-	c.env[v] = "Z"
+	c.env[v] = elem
 	c.loop = &loopCtx{
 		cont: func() string { return strings.TrimSpace(fmt.Sprintf("%s %s' %s", name, lv, strings.Join(args, " "))) },
 		brk:  afterTxt,
@@ -755,8 +796,8 @@ func (c *fnCtx) loopOver(xs, v string, body []ast.Stmt, after func() string) str
 	c.loop = outer
 	c.env = saved
 	nilTxt := afterTxt()
-	return fmt.Sprintf("(fix %s (%s : list Z) %s {struct %s} : %s :=\n  match %s with\n  | [] =>\n  %s\n  | %s :: %s' =>\n  %s\n  end) %s %s",
-		name, lv, strings.Join(params, " "), lv, c.retType(), lv, nilTxt, v, lv, bodyTxt, xs, strings.Join(args, " "))
+	return fmt.Sprintf("(fix %s (%s : list %s) %s {struct %s} : %s :=\n  match %s with\n  | [] =>\n  %s\n  | %s :: %s' =>\n  %s\n  end) %s %s",
+		name, lv, elem, strings.Join(params, " "), lv, c.retType(), lv, nilTxt, v, lv, bodyTxt, xs, strings.Join(args, " "))
 }
 
 func (c *fnCtx) assign(lhs, rhs ast.Expr, next func() string) string {
@@ -790,6 +831,13 @@ func (c *fnCtx) resultTypes(e ast.Expr) []string {
 	}
 	if gf := c.callee(call); gf != nil {
 		return gf.results
+	}
+	if se, ok := call.Fun.(*ast.SelectorExpr); ok {
+		if id, isPkg := se.X.(*ast.Ident); !(isPkg && id.Name == "time") && c.typeOf(se.X) == "gtime" {
+			if r, ok := gtimeMethods[se.Sel.Name]; ok {
+				return r
+			}
+		}
 	}
 	return []string{c.typeOf(e)}
 }
@@ -877,15 +925,27 @@ func (c *fnCtx) typeOf(e ast.Expr) string {
 			return "(" + strings.Join(gf.results, " * ") + ")"
 		}
 		switch name := callName(x.Fun); name {
-		case "len", "int", "time.Month":
+		case "len", "int", "time.Month", "time.Duration":
 			return "Z"
 		case "make":
 			return c.t.gtype(c.fn.file, x.Args[0])
+		case "append":
+			return c.typeOf(x.Args[0])
 		case "time.Date":
+			if c.t.loc {
+				return "gtime"
+			}
 			return "gotime"
 		}
 		if se, ok := x.Fun.(*ast.SelectorExpr); ok {
 			switch c.typeOf(se.X) {
+			case "gtime":
+				if r, ok := gtimeMethods[se.Sel.Name]; ok {
+					if len(r) == 1 {
+						return r[0]
+					}
+					return "(" + strings.Join(r, " * ") + ")"
+				}
 			case "gotime":
 				if se.Sel.Name == "AddDate" {
 					return "gotime"
@@ -900,6 +960,12 @@ func (c *fnCtx) typeOf(e ast.Expr) string {
 	}
 	die("%s: cannot type the expression at %s", c.fn.file.path, c.pos(e))
 	return ""
+}
+
+// methods of a located time.Time (GoTimeLoc.v) and their result types
+var gtimeMethods = map[string][]string{
+	"Date": {"Z", "Z", "Z"}, "Clock": {"Z", "Z", "Z"}, "Zone": {"unit", "Z"}, "ZoneBounds": {"gtime", "gtime"},
+	"IsZero": {"bool"}, "Add": {"gtime"}, "After": {"bool"}, "Before": {"bool"},
 }
 
 // hasEffects: does evaluating e call a method that assigns to its receiver?
@@ -975,6 +1041,10 @@ func (c *fnCtx) expr(e ast.Expr, k func(string) string) string {
 			switch x.Sel.Name {
 			case "Saturday", "Sunday":
 				return k("time_" + x.Sel.Name)
+			case "Second":
+				if c.t.loc {
+					return k("1") // durations are counted in seconds (every Add argument is a multiple of time.Second: checked)
+				}
 			}
 			die("%s: unsupported time constant %s", c.fn.file.path, x.Sel.Name)
 		}
@@ -1003,6 +1073,14 @@ func (c *fnCtx) expr(e ast.Expr, k func(string) string) string {
 		}
 	case *ast.CompositeLit:
 		sn := c.t.gtype(c.fn.file, x.Type)
+		if strings.HasPrefix(sn, "list ") {
+			for _, el := range x.Elts {
+				if c.typeOf(el) != strings.TrimPrefix(sn, "list ") {
+					die("%s: slice literal element of another type at %s", c.fn.file.path, c.pos(el))
+				}
+			}
+			return c.exprs(x.Elts, func(vs []string) string { return k("[" + strings.Join(vs, "; ") + "]") })
+		}
 		gs, ok := c.t.structs[sn]
 		if !ok {
 			die("%s: composite literal of a non-struct at %s", c.fn.file.path, c.pos(x))
@@ -1133,9 +1211,32 @@ func (c *fnCtx) call(x *ast.CallExpr, k func(string) string) string {
 			die("%s: only make([]int, 0) is supported (%s)", c.fn.file.path, c.pos(x))
 		}
 		return k("(@nil Z)")
+	case "append":
+		if len(x.Args) < 2 || !strings.HasPrefix(c.typeOf(x.Args[0]), "list ") {
+			die("%s: unsupported append at %s", c.fn.file.path, c.pos(x))
+		}
+		for _, a := range x.Args[1:] {
+			if "list "+c.typeOf(a) != c.typeOf(x.Args[0]) {
+				die("%s: append of another element type at %s", c.fn.file.path, c.pos(x))
+			}
+		}
+		return c.exprs(x.Args, func(v []string) string { return k(fmt.Sprintf("(%s ++ [%s])", v[0], strings.Join(v[1:], "; "))) })
+	case "time.Duration":
+		if len(x.Args) != 1 || c.typeOf(x.Args[0]) != "Z" {
+			die("%s: conversion of a non-integer at %s", c.fn.file.path, c.pos(x))
+		}
+		return c.expr(x.Args[0], k)
 	case "time.Date":
 		if len(x.Args) != 8 {
 			die("%s: time.Date arity", c.fn.file.path)
+		}
+		if c.t.loc {
+			if c.fn.file.intOf(x.Args[6]) != 0 || c.typeOf(x.Args[7]) != "zone" {
+				die("%s: time.Date with nanoseconds or without a location at %s", c.fn.file.path, c.pos(x))
+			}
+			return c.exprs(append(append([]ast.Expr{}, x.Args[:6]...), x.Args[7]), func(v []string) string {
+				return k(fmt.Sprintf("(time_DateL %s)", strings.Join(v, " ")))
+			})
 		}
 		for _, a := range x.Args[3:7] {
 			if c.fn.file.intOf(a) != 0 {
@@ -1194,6 +1295,39 @@ func (c *fnCtx) call(x *ast.CallExpr, k func(string) string) string {
 	}
 	if se, ok := x.Fun.(*ast.SelectorExpr); ok {
 		switch c.typeOf(se.X) {
+		case "gtime":
+			r, ok := gtimeMethods[se.Sel.Name]
+			if !ok {
+				die("%s: unsupported time.Time method %s at %s", c.fn.file.path, se.Sel.Name, c.pos(x))
+			}
+			want := map[string][]string{"Add": {"Z"}, "After": {"gtime"}, "Before": {"gtime"}}[se.Sel.Name]
+			if len(x.Args) != len(want) {
+				die("%s: arity of %s at %s", c.fn.file.path, se.Sel.Name, c.pos(x))
+			}
+			for i, a := range x.Args {
+				if c.typeOf(a) != want[i] {
+					die("%s: argument of %s at %s", c.fn.file.path, se.Sel.Name, c.pos(x))
+				}
+			}
+			if se.Sel.Name == "Add" {
+				// durations are counted in seconds: the argument must be a multiple of time.Second
+				sec := false
+				ast.Inspect(x.Args[0], func(n ast.Node) bool {
+					if s2, ok := n.(*ast.SelectorExpr); ok && callName(s2) == "time.Second" {
+						sec = true
+					}
+					return true
+				})
+				if !sec {
+					die("%s: Add of a duration that is not written as a multiple of time.Second at %s", c.fn.file.path, c.pos(x))
+				}
+			}
+			_ = r
+			fn := map[string]string{"Date": "time_DateOf", "Clock": "time_ClockOf", "Zone": "time_Zone", "ZoneBounds": "time_ZoneBounds",
+				"IsZero": "time_IsZero", "Add": "time_AddSec", "After": "time_After", "Before": "time_Before"}[se.Sel.Name]
+			return c.exprs(append([]ast.Expr{se.X}, x.Args...), func(v []string) string {
+				return k(fmt.Sprintf("(%s %s)", fn, strings.Join(v, " ")))
+			})
 		case "gotime":
 			switch se.Sel.Name {
 			case "Day", "Month", "Weekday", "Year":
@@ -1222,4 +1356,82 @@ func (c *fnCtx) call(x *ast.CallExpr, k func(string) string) string {
 	}
 	die("%s: unsupported call %s at %s", c.fn.file.path, name, c.pos(x))
 	return ""
+}
+
+
+// Section "cronsrc": quartz/cron.go's firstAfter (the mapping of a wall clock reading back to instants of a
+// location with transitions), translated with located time values (GoTimeLoc.v).
+func init() { sections["cronsrc"] = genCronSrc }
+
+func genCronSrc(o *out) {
+	t := &csmTr{structs: map[string]*gstruct{}, funcs: map[string]*gfunc{}, consts: map[string]int64{}, loc: true}
+	f := parse("quartz/cron.go")
+	for _, name := range []string{"firstAfter"} {
+		fd := f.method("", name)
+		gf := &gfunc{decl: fd, file: f, goName: name, coqName: "g_" + name}
+		for _, p := range fd.Type.Params.List {
+			for _, n := range p.Names {
+				gf.params = append(gf.params, gfield{n.Name, t.gtype(f, p.Type)})
+			}
+		}
+		for _, r := range fd.Type.Results.List {
+			k := len(r.Names)
+			if k == 0 {
+				k = 1
+			}
+			for i := 0; i < k; i++ {
+				gf.results = append(gf.results, t.gtype(f, r.Type))
+			}
+		}
+		t.funcs[name] = gf
+	}
+	o.line("(* Source-to-Gallina translation of quartz/cron.go's firstAfter (see harness/cmd/genparams/csmsrc.go). *)")
+	o.line("From Coq Require Import ZArith List Bool.")
+	o.line("Require Import QzBase.Calendar QzCron.NextFire QzCron.GoTimeLoc.")
+	o.line("Import ListNotations.")
+	o.line("Open Scope Z_scope.")
+	o.line("")
+	t.texts = map[string]string{}
+	t.state = map[string]int{}
+	for _, name := range []string{"firstAfter"} {
+		t.require(t.funcs[name])
+	}
+	for _, n := range t.order {
+		o.line("%s", t.texts[n])
+	}
+}
+
+
+// Gallina keywords and notations that a Go local variable may be called: such variables get a trailing underscore.
+var coqReserved = map[string]bool{"end": true, "at": true, "as": true, "in": true, "fix": true, "cofix": true, "match": true, "with": true,
+	"let": true, "fun": true, "if": true, "then": true, "else": true, "return": true, "forall": true, "exists": true, "where": true,
+	"using": true, "for": true, "mod": true, "Type": true, "Set": true, "Prop": true, "struct": true, "fst": true, "snd": true,
+	"nil": true, "cons": true, "length": true, "nth": true, "hd": true, "tt": true, "negb": true, "andb": true, "orb": true}
+
+func renameReserved(fd *ast.FuncDecl) {
+	sel := map[*ast.Ident]bool{}
+	ast.Inspect(fd, func(n ast.Node) bool {
+		if se, ok := n.(*ast.SelectorExpr); ok {
+			sel[se.Sel] = true
+		}
+		if kv, ok := n.(*ast.KeyValueExpr); ok {
+			if id, ok := kv.Key.(*ast.Ident); ok {
+				sel[id] = true
+			}
+		}
+		return true
+	})
+	ast.Inspect(fd.Body, func(n ast.Node) bool {
+		if id, ok := n.(*ast.Ident); ok && !sel[id] && coqReserved[id.Name] {
+			id.Name += "_"
+		}
+		return true
+	})
+	for _, p := range fd.Type.Params.List {
+		for _, n := range p.Names {
+			if coqReserved[n.Name] {
+				n.Name += "_"
+			}
+		}
+	}
 }
